@@ -5,6 +5,7 @@ CONSTANTS
   MaxEnv = 10
   MaxInc = 3
   MaxRaise = 1
+  MaxBlock = 0
 INVARIANT NoViolation
 INVARIANT Structural
 INVARIANT Bounded
